@@ -143,17 +143,30 @@ def short_job(item):
                     rec["skipped"] += 1
                     flush()
                     continue
+                # the non-sequential result on the same (short) input, when the call accepts it
+                try:
+                    rec["calls"] += 1
+                    single = dict(D.fields_of(D.call(entry, c_all[:n], c2_all[:n], kw, False)))
+                except Exception:
+                    single = None
                 for f, v in D.fields_of(r):
                     s = D.as_list(v)
                     if s is None:
                         rec["not_series"] += 1
                         continue
-                    kind = D.kind_of(s)
+                    x = single.get(f) if single is not None else None
+                    has_single = single is not None and f in single
+                    scalar = has_single and D.is_scalar(x)
+                    x = D.to_scalar(x) if scalar else None
+                    kind = D.kind_of(s + ([x] if scalar else []))
                     key = "%s|%s" % (f, c13.params_key(kw))
                     t = rec["traces"].setdefault(key, {"field": f, "kw": kw, "kind": kind, "ev": []})
                     if kind != t["kind"]:
                         continue
-                    t["ev"].append({"k": "seq", "n": n, "out": D.enc_series(s, kind, D.scale_of(s, 100.0) * 1e-6)})
+                    unit = D.scale_of(s + ([x] if scalar and kind == "num" else []), 100.0) * 1e-6
+                    t["ev"].append({"k": "seq", "n": n, "out": D.enc_series(s, kind, unit)})
+                    if has_single:
+                        t["ev"].append({"k": "single", "scalar": bool(scalar), "v": D.enc_series([x], kind, unit)[0]})
                 flush()
     return entry["name"]
 
@@ -198,9 +211,12 @@ def run_short(ctx, cat):
         for key, t in rec["traces"].items():
             if not t["ev"]:
                 continue
-            traces.append({"hdr": {"ind": e["name"], "field": t["field"], "kind": t["kind"], "lag": 0, "n": t["ev"][0]["n"],
+            lag = 0
+            if e["name"] == "minmax" and t["field"] in ("is_min", "is_max"):
+                lag = int(t["kw"].get("order", e["params"].get("order", 0)))
+            traces.append({"hdr": {"ind": e["name"], "field": t["field"], "kind": t["kind"], "lag": lag, "n": t["ev"][0]["n"],
                                    "window": W, "params": c13.params_key(t["kw"]) + ",short-input",
-                                   "series": ["random", 320, 21, "lengths %d..%d" % (t["ev"][-1]["n"], t["ev"][0]["n"])],
+                                   "series": ["random", 320, 21, "lengths %d..%d" % (min(x["n"] for x in t["ev"] if x["k"] == "seq"), t["ev"][0]["n"])],
                                    "finite": 0},
                            "ev": t["ev"], "kw": t["kw"], "short": True})
     return traces, st
@@ -268,7 +284,7 @@ def judge(ctx, traces, parts):
             ctx.violation(sig_of(h, v), "%s(%s).%s on %d candles of %s: event %s rejected: %s" % (
                 h["ind"], h["params"], h["field"], h["n"], h["series"], t["ev"][l - 1]["k"], v),
                 {"ind": h["ind"], "kw": t["kw"], "series": h["series"], "field": h["field"],
-                 "short_lengths": [e["n"] for e in t["ev"]] if t.get("short") else None})
+                 "short_lengths": [e["n"] for e in t["ev"] if e["k"] == "seq"] if t.get("short") else None})
     return verdicts, results, bad
 
 
@@ -341,8 +357,8 @@ def run(ctx):
         "for inputs longer than 240 candles the non-sequential result is compared with the sequential series of the trailing "
         "240 candles (the slicing rule), not with the last entry of the sequential series on the whole input",
         "tolerance: one logging unit = 1e-6 x max(|finite values of the series|, 1e-6 x max close)",
-        "short-input mode (inputs of 1..period+1 candles, windows of 300 on 240/100/20 candles): only 'one entry per candle' is "
-        "judged; an exception or a dying child on a too-short input is recorded as skipped, a scalar result is not judged",
+        "short-input mode (inputs of 1..period+1 candles, windows of 300 on 240/100/20 candles): 'one entry per candle' and "
+        "'last entry = non-sequential result on the same input' are judged; an exception or a dying child on a too-short input is recorded as skipped, a scalar result is not judged",
         "a case whose sequential call raises is skipped; a non-sequential call that raises where the sequential one did not "
         "is listed in the evidence, not judged"]
 
